@@ -543,7 +543,7 @@ def run(model, col, tier, share=True):
         from ..report import Collector
         from . import c10, c12
 
-        for mod, pid, rules in ((c10, "C10", ("R10.1", "R10.2", "R10.3", "R10.4")), (c12, "C12", ("R12.1",))):
+        for mod, pid, rules in ((c10, "C10", ("R10.1", "R10.2", "R10.3", "R10.4")), (c12, "C12", ("R12.1", "R12.4"))):
             sub = Collector(pid)
             mod.run(model, sub, "quick")
             for ob in sub.obligations:
@@ -570,3 +570,18 @@ def run(model, col, tier, share=True):
                 ob.detail = f"[{ob.rule}] " + (ob.detail or "")
                 ob.rule = "R03.7"
                 col.obligations.append(ob)
+        # an activation leaves nothing behind on the execution context: whether (and how) a call runs does not depend on the
+        # calls made before it (= R15.1 on the context's own fields; R15.5 the argument list is built per call)
+        from . import c15
+
+        sub = Collector("C15")
+        c15.run(model, sub, "quick")
+        n15 = 0
+        for ob in sub.obligations:
+            if (ob.rule == "R15.1" and "ExecutionContext" in ob.construct and ("sets attribute" in ob.construct or "mutates self" in ob.construct)) \
+                    or (ob.rule == "R15.5" and "fresh argument list" in ob.construct):
+                ob.detail = f"[{ob.rule}] " + (ob.detail or "")
+                ob.rule = "R03.2"
+                col.obligations.append(ob)
+                n15 += 1
+        col.floor("R03.2", "context-state obligations shared with C15", n15, 1)
